@@ -60,6 +60,12 @@ var c06Commands = []struct {
 	{[]string{"report", "quantity"}, false, true, true},
 	{[]string{"report", "unresolved"}, false, true, false},
 	{[]string{"reg", "--no-color", "-s", "@X@"}, true, false, false},
+	{[]string{"reg", "-s", "@X@", "-g"}, true, false, false},
+	{[]string{"reg", "-f", "."}, true, false, true},
+	{[]string{"bal", "-s", "@X@"}, true, false, false},
+	{[]string{"bal", "--collapse"}, true, false, true},
+	{[]string{"reg", "--use-old-reg-reporter", "--no-color"}, true, false, true},
+	{[]string{"reg", "--internal-template-name", "left-aligned", "--no-color"}, true, false, true},
 }
 
 type c06Case struct {
@@ -395,13 +401,13 @@ func TestVerifC06Enum(t *testing.T) {
 	zones := vPick(1, 4)
 	space := c06EnumSpace(zones)
 	vEnum(t, "C06", "c06.enum",
-		"every (begin,end) pair over {absent, 6 window days, day before, day after} (81 pairs) x 6 fixed logs (sorted, reversed, repeated dates, days outside the window) x 8 period-aware commands x flag position {global, sub-command, both with decoy global values} x zones; expectation = output on the file reduced to the model-selected days without period flags; non-trivial = proper non-empty subset selected, or a day equals a bound, or begin > end",
-		fmt.Sprintf("81 (begin,end) pairs x 6 logs x 8 commands x positions x %d zone(s)", zones), len(space),
+		"every (begin,end) pair over {absent, 6 window days, day before, day after} (81 pairs) x 6 fixed logs (sorted, reversed, repeated dates, days outside the window) x 14 period-aware command variants x flag position {global, sub-command, both with decoy global values} x zones; expectation = output on the file reduced to the model-selected days without period flags; non-trivial = proper non-empty subset selected, or a day equals a bound, or begin > end",
+		fmt.Sprintf("81 (begin,end) pairs x 6 logs x 14 commands x positions x %d zone(s)", zones), len(space),
 		func(i int) c06Case { return c06EnumCase(space[i]) }, checkC06)
 }
 
 func TestVerifC06Random(t *testing.T) {
 	vRapid(t, "C06", "c06.random",
-		"random logs (1-7 days from a 6-day window placed at a month, year or leap-day boundary, any order, repeats, occasional day outside), --today in the window, begin/end from {absent, window +-1, today, yesterday, last7, last30}, 8 commands + summary DATE, flag position global/sub-command/both, short/long option names, 3 date layouts, 6 zones (in-process via time.Local, 1/30 through the real binary with TZ)",
+		"random logs (1-7 days from a 6-day window placed at a month, year or leap-day boundary, any order, repeats, occasional day outside), --today in the window, begin/end from {absent, window +-1, today, yesterday, last7, last30}, 14 command variants + summary DATE, flag position global/sub-command/both, short/long option names, 3 date layouts, 6 zones (in-process via time.Local, 1/30 through the real binary with TZ)",
 		vBudget(4000, 64000), genC06, checkC06)
 }
